@@ -22,3 +22,27 @@ Example C13_nonvacuous :
 Proof. vm_compute. repeat split; eauto. Qed.
 
 Print Assumptions C13_holds.
+
+(* The same when max_retained_runs was changed between runs (each earlier run ran under a limit of its own, any value; the run that
+   is killed runs under M >= 2): the store is whatever those runs left, the pointer may name a slot above the present limit. *)
+Definition C13_any_limit_statement (crash : fs -> nat -> run_rec -> nat -> fs) (n_effects : nat -> run_rec -> nat) : Prop :=
+  forall (earlier : list (nat * run_rec)) M i r k, 2 <= M ->
+    let f := history_var true earlier in
+    next_id M f = Some i -> k < n_effects i r ->
+    let f' := crash f i r k in
+    show f' = show f /\ next_id M f' = Some i /\ (forall j, j <> i -> slots f' j = slots f j).
+
+Theorem C13_any_limit_holds : C13_any_limit_statement (crash true) (fun i r => length (run_ops true i r)).
+Proof.
+  intros earlier M i r k HM f Hn Hk.
+  destruct (C13_crash_safe_any_limit M f i r k HM (history_var_recorded earlier) Hn Hk) as (H1 & _ & H3 & H4).
+  auto.
+Qed.
+
+Example C13_any_limit_nonvacuous :
+  let rr n := {| rlogs := [n]; rresult := 10 + n |} in
+  let f := history_var true [(5, rr 1); (5, rr 2); (5, rr 3); (5, rr 4)] in
+  pointer f = PVal 4 /\ next_id 3 f = Some 1 /\ show (crash true f 1 (rr 5) 3) = Shows [4] 14.
+Proof. vm_compute. repeat split. Qed.
+
+Print Assumptions C13_any_limit_holds.
